@@ -225,12 +225,13 @@ func getGroupPath(prefix, path string) string {
 }
 
 // acceptsOffer This function determines if an offer matches a given specification.
-// It checks if the specification ends with a '*' or if the offer has the prefix of the specification.
+// It checks if the specification ends with a '*', equals the offer, or is a more specific tag of the offer
+// (the offer followed by '-', e.g. "fr-CH" for the offer "fr"); "fil" is not acceptable for the offer "fi".
 // Returns true if the offer matches the specification, false otherwise.
 func acceptsOffer(spec, offer string, _ headerParams) bool {
 	if len(spec) >= 1 && spec[len(spec)-1] == '*' {
 		return true
-	} else if strings.HasPrefix(spec, offer) {
+	} else if strings.HasPrefix(spec, offer) && (len(spec) == len(offer) || spec[len(offer)] == '-') {
 		return true
 	}
 	return false
